@@ -52,13 +52,18 @@ ASSUME \A c \in Cases : c.nc = "private" /\ ~c.cfg.all /\ c.cfg.prefix # "empty"
 \* always refused); "restricted" = a restricted() view (reads of listed names, writes of write-listed names reach the
 \* underlying object; nothing else does - it has no delete hook, so a delete is a matter of the configuration and, being
 \* applied to the view, never reaches the underlying object)
-HookKinds == {"ownhooks", "service", "restricted"}
+\* two shapes that do NOT bring hooks of their own although hooks are near: "class_of_hooked" = the class object of a
+\* hooked class (hooks are instance methods; for the class object itself the configuration decides), "forwarder" = a
+\* hook-less wrapper that forwards unknown attributes to a hooked object (the configuration decides, and the inner
+\* object's hooks are not consulted)
+HookKinds == {"ownhooks", "service", "restricted", "class_of_hooked", "forwarder"}
 HookCases == [kind : HookKinds, op : {"get", "set", "del"}, listed : BOOLEAN, enabled : BOOLEAN]
 DecideHook(h) ==
     CASE h.kind = "ownhooks" -> IF h.listed THEN {"Hook"} ELSE {"AttributeError"}
       [] h.kind = "service" -> IF h.op = "get" THEN {"Config"} ELSE {"AttributeError"}
       [] h.kind = "restricted" -> IF h.op = "del" THEN {"AttributeError"}
                                   ELSE IF h.listed THEN {"Underlying"} ELSE {"AttributeError"}
+      [] h.kind \in {"class_of_hooked", "forwarder"} -> {"Config"}
 ExportHooks == IF "OUT_FILE2" \in DOMAIN IOEnv
                THEN ndJsonSerialize(IOEnv.OUT_FILE2, SetToSeq({[kind |-> h.kind, op |-> h.op, listed |-> h.listed,
                                                                  enabled |-> h.enabled, allowed |-> DecideHook(h)] : h \in HookCases}))
@@ -74,11 +79,14 @@ ASSUME Export
 
 ---------------------------------------------------------------------------------------
 (* Part 2: histories of differently configured connections *)
-CONSTANTS MaxConns, Kinds          \* Kinds \subseteq {"default", "classic", "public"}
+CONSTANTS MaxConns, Kinds          \* Kinds \subseteq {"default", "classic", "public", "classic_shared"}
 Default == [enabled |-> TRUE, all |-> FALSE, exposed |-> TRUE, safe |-> TRUE, public |-> FALSE, prefix |-> "std"]
 \* what SlaveService.on_connect grants its own connection
 Widened(cfg) == [cfg EXCEPT !.all = TRUE, !.exposed = FALSE, !.enabled = TRUE]
+\* "public" connections are all opened with one and the same configuration mapping object of the application;
+\* "classic_shared" is a classic-mode connection opened with that very object
 CfgOf(kind) == IF kind = "classic" THEN Widened(Default)
+               ELSE IF kind = "classic_shared" THEN Widened([Default EXCEPT !.public = TRUE])
                ELSE IF kind = "public" THEN [Default EXCEPT !.public = TRUE] ELSE Default
 
 VARIABLES conns,      \* function id -> [kind, cfg] of the open connections
